@@ -63,3 +63,13 @@ append("/repo/generator/db/filesystem/contracts_verif.go", "func (nativefs).Writ
 //@   ensures @C18,C20 F.configs != F.artifacts && F.configs != F.fsMetadata && F.artifacts != F.fsMetadata && F.profiles != F.configs && F.profiles != F.artifacts && F.profiles != F.fsMetadata && F.subscribersOf != F.configs && F.subscribersOf != F.artifacts && F.subscribersOf != F.fsMetadata && F.subscribersOf != F.profiles
 //@   ensures @C18 len(F.rootAliases) == 0 && maplen(F.configs) == 0 && maplen(F.subscribersOf) == 0
 ''')
+
+# ---- v1: parseExtensions yields one configuration per list element (assumed; bounded stand-in checks it)
+p = "/repo/generator/config/v1/contracts_verif.go"
+s = open(p).read()
+old = "//@   bounded TestVerifBoundedParseExtensions\n"
+new = old + "//@   abstracts err == nil ==> len(res) == len(e)\n//@   abstracts err != nil ==> res == nil\n"
+if "abstracts err == nil ==> len(res) == len(e)" not in s:
+    assert old in s
+    open(p, "w").write(s.replace(old, new, 1))
+    print("parseExtensions abstracts added")
